@@ -15,6 +15,13 @@ fn ns(i: usize) -> String {
 }
 
 fn file_for(i: usize, n: usize, edges: u32, dup: bool, changed: bool) -> XsdFile {
+    file_for_ns(i, n, edges, dup, changed, false)
+}
+
+/// `shared`: every file but the start file lives in ONE namespace (several files, one namespace,
+/// imported under different schemaLocations)
+fn file_for_ns(i: usize, n: usize, edges: u32, dup: bool, changed: bool, shared: bool) -> XsdFile {
+    let ns = |k: usize| if shared && k >= 1 { ns(1) } else { ns(k) };
     let mut imports = vec![];
     for j in 0..n {
         if edges & (1 << (i * n + j)) != 0 {
@@ -114,6 +121,7 @@ enum Variant {
     NonSchema,
     DupEdges,
     WsdlStart,
+    SharedNs,
 }
 
 fn variant_name(v: Variant) -> &'static str {
@@ -125,6 +133,7 @@ fn variant_name(v: Variant) -> &'static str {
         Variant::NonSchema => "unreachable-not-a-schema",
         Variant::DupEdges => "duplicate-import-edges",
         Variant::WsdlStart => "wsdl-start",
+        Variant::SharedNs => "files-share-one-namespace",
     }
 }
 
@@ -139,6 +148,7 @@ fn build_case(n: usize, edges: u32, v: Variant) -> Case {
             Variant::Malformed if unreachable => "<<<this is not xml".to_string(),
             Variant::NonSchema if unreachable => "<?xml version=\"1.0\"?><catalog><entry id=\"1\"/></catalog>".to_string(),
             Variant::DupEdges => print_xsd(&file_for(i, n, edges, true, false)),
+            Variant::SharedNs => print_xsd(&file_for_ns(i, n, edges, false, false, true)),
             _ => print_xsd(&file_for(i, n, edges, false, false)),
         };
         files.push((format!("f{i}.xsd"), text));
@@ -278,9 +288,9 @@ pub fn check(tier: &str) -> i32 {
         let variants: Vec<Variant> = if n >= 5 {
             vec![Variant::Base, Variant::Malformed]
         } else if n <= 3 || tier == "thorough" {
-            vec![Variant::Base, Variant::Removed, Variant::Changed, Variant::Malformed, Variant::NonSchema, Variant::DupEdges, Variant::WsdlStart]
+            vec![Variant::Base, Variant::Removed, Variant::Changed, Variant::Malformed, Variant::NonSchema, Variant::DupEdges, Variant::WsdlStart, Variant::SharedNs]
         } else {
-            vec![Variant::Base, Variant::Malformed, Variant::Removed]
+            vec![Variant::Base, Variant::Malformed, Variant::Removed, Variant::SharedNs]
         };
         let mut n_states = 0u64;
         for chunk in graphs.chunks(4096) {
@@ -294,6 +304,9 @@ pub fn check(tier: &str) -> i32 {
                         continue;
                     }
                     if v == Variant::DupEdges && e == 0 {
+                        continue;
+                    }
+                    if v == Variant::SharedNs && n < 3 {
                         continue;
                     }
                     jobs.push(Job { n, edges: e, variant: v });
@@ -359,7 +372,7 @@ pub fn replay(v: &Violation) -> i32 {
     let n = v.case["n"].as_u64().unwrap_or(1) as usize;
     let edges = v.case["edges"].as_u64().unwrap_or(0) as u32;
     let vname = v.case["variant"].as_str().unwrap_or("as-generated");
-    let variant = [Variant::Base, Variant::Removed, Variant::Changed, Variant::Malformed, Variant::NonSchema, Variant::DupEdges, Variant::WsdlStart]
+    let variant = [Variant::Base, Variant::Removed, Variant::Changed, Variant::Malformed, Variant::NonSchema, Variant::DupEdges, Variant::WsdlStart, Variant::SharedNs]
         .into_iter()
         .find(|x| variant_name(*x) == vname)
         .unwrap_or(Variant::Base);
